@@ -1279,3 +1279,19 @@ Proof.
   rewrite H2. f_equal. apply denoted_same_residues. intros x Hx. apply Hres.
   pose proof (seg_bounds v Hwf) as Hb. unfold seg_lo, seg_hi in Hb. lia.
 Qed.
+
+(* CTAGAGT with annotation offset 5: rc(); copy(); [1:6]; copy() - the three-span minus-strand feature still reads CCA *)
+Definition w6_ops : list hop := [HOp VRc; HCopy; HOp (VSlice (Some 1) (Some 6) None); HCopy].
+
+Example history_with_copies_instance :
+  exists v0 v p fv, mk_view (zlen w_parent) None None None 5 = Ok v0 /\ Forall unit_hop w6_ops /\
+    fold_left apply_hop w6_ops (Ok (v0, w_parent)) = Ok (v, p) /\ 0 < vlen v /\ p <> w_parent /\
+    feature_on_view pinned v w5_feat = Ok fv /\
+    get_slice pinned OldSeq v p fv = Ok [67; 67; 65] /\
+    denoted w_parent 5 (parent_start v) (parent_stop v) w5_feat = [67; 67; 65].
+Proof.
+  eexists. eexists. eexists. eexists.
+  split; [vm_compute; reflexivity|]. split; [repeat constructor; cbn; auto|].
+  split; [vm_compute; reflexivity|]. split; [vm_compute; reflexivity|]. split; [vm_compute; discriminate|].
+  split; [vm_compute; reflexivity|]. split; vm_compute; reflexivity.
+Qed.
